@@ -31,6 +31,7 @@ pub mod c41;
 pub mod c42;
 pub mod c48;
 pub mod c49;
+pub mod c50;
 pub mod dirchecks;
 pub mod replchecks;
 pub mod tokchecks;
@@ -48,6 +49,7 @@ pub fn dispatch(id: &str, args: &[String]) -> ! {
         "C14" => c14::run(args),
         "C48" => c48::run(args),
         "C49" => c49::run(args),
+        "C50" => c50::run(args),
         "C04" => c04::run(args),
         "C05" => c05::run(args),
         "C06" => c06::run(args),
